@@ -56,12 +56,26 @@ pub fn install_fill(seed: u64, selector: Option<(Role, usize)>) -> FillGuard {
     FillGuard
 }
 
+thread_local! {
+    /// injected delay: how long a handshake object is left alone between its creation and its
+    /// first use (a server object created at accept and used when the first bytes arrive)
+    static AGE_MS: std::cell::Cell<u64> = std::cell::Cell::new(0);
+}
+
+fn age() {
+    let ms = AGE_MS.with(|a| a.get());
+    if ms > 0 {
+        std::thread::sleep(std::time::Duration::from_millis(ms));
+    }
+}
+
 /// The library generates packet 1 as `role`; judge it.
 fn own_p1(role: Role, sum: Option<usize>, seed: u64, out: &mut Out) {
     out.eval(1);
     let _g = sum.map(|s| install_fill(seed, Some((role, s))));
     let r = lib_call(out, "Handshake::generate_outbound_p0_and_p1", || json!({"role": format!("{:?}", role), "selector_sum": sum, "fill_seed": seed}), || {
         let mut h = Handshake::new(peer_type(role));
+        age();
         h.generate_outbound_p0_and_p1().map_err(|e| format!("{:?}", e))
     });
     let bytes = match r {
@@ -107,6 +121,7 @@ fn answer(lib_role: Role, p1: &[u8], expect_digest: Option<[u8; 32]>, what: &str
     let ctx = || json!({"library_role": format!("{:?}", lib_role), "received_p1": what, "p1_head": hex_short(&p1[..16], 64)});
     let r = lib_call(out, "Handshake::process_bytes", &ctx, || {
         let mut h = Handshake::new(peer_type(lib_role));
+        age();
         let mut pre = 0;
         if pregenerate {
             pre = h.generate_outbound_p0_and_p1().map(|b| b.len()).unwrap_or(0);
@@ -243,6 +258,19 @@ impl Check for C11 {
         }
         // digest-less packet 1s and the library's own RNG (no hook)
         for i in 0..40 {
+            // every eighth case: the first of each kind with the handshake object 2-3 ms old
+            let aged = k % 8 == 0 && i < 4;
+            AGE_MS.with(|a| a.set(if aged { 2 + (i as u64 % 2) } else { 0 }));
+            if aged {
+                out.count("handshakes_first_used_some_ms_after_creation", 1);
+                own_p1(if i % 2 == 0 { Role::Client } else { Role::Server }, None, rng.next(), out);
+                if i == 0 {
+                    // and one selector sum of the enumeration (own packet 1 in both roles, received
+                    // digest-bearing packet 1 in both schemes) with aged objects
+                    let sum = rng.usize(0, 1020);
+                    round(rng, &[sum], out);
+                }
+            }
             let mut p1 = rng.bytes(PACKET);
             let kind = match i % 4 {
                 0 => {
@@ -278,7 +306,7 @@ impl Check for C11 {
         }
     }
     fn rule(&self) -> String {
-        "enumeration of every selector-byte sum 0..=1020 (all 728 digest offsets, both sums where a residue has two) x {own packet 1 as client, as server (via the deterministic fill hook); received packet 1 built by the reference, keyed as client -> library server and keyed as server -> library client, digest placed by scheme at-8 and by scheme at-772; a third of them with unusual time/version fields (all zero, all ones, random) and the digest recomputed; a quarter additionally as a near-miss with one bit flipped inside or outside the digest, which must be answered by an echo}, remaining bytes seeded-random, repeated for up to 32 (quick) / 3200 (thorough) fillings (the first two always); plus digest-less packet 1s (zero version, non-zero version, random, digest keyed for the wrong role) and packets generated with the library's own RNG. Every digest, signature and echo is recomputed with the independent SHA-256/HMAC. distinct = (own/received, role, scheme, offset) combinations observed.".to_string()
+        "enumeration of every selector-byte sum 0..=1020 (all 728 digest offsets, both sums where a residue has two) x {own packet 1 as client, as server (via the deterministic fill hook); received packet 1 built by the reference, keyed as client -> library server and keyed as server -> library client, digest placed by scheme at-8 and by scheme at-772; a third of them with unusual time/version fields (all zero, all ones, random) and the digest recomputed; a quarter additionally as a near-miss with one bit flipped inside or outside the digest, which must be answered by an echo}, remaining bytes seeded-random, repeated for up to 32 (quick) / 3200 (thorough) fillings (the first two always); plus digest-less packet 1s (zero version, non-zero version, random, digest keyed for the wrong role) and packets generated with the library's own RNG; in every eighth of these cases the handshake objects are first used 2-3 ms after they were created (injected delay), for one selector sum of the enumeration and one packet of each digest-less kind. Every digest, signature and echo is recomputed with the independent SHA-256/HMAC. distinct = (own/received, role, scheme, offset) combinations observed.".to_string()
     }
     fn assumptions(&self) -> Vec<String> {
         vec![
@@ -292,6 +320,7 @@ impl Check for C11 {
             "p2_signatures_valid".into(),
             "p2_echoes_exact".into(),
             "own_p1_with_library_rng".into(),
+            "handshakes_first_used_some_ms_after_creation".into(),
             "received_p1_from_Client_At8".into(),
             "received_p1_from_Client_At772".into(),
             "received_p1_from_Server_At8".into(),
